@@ -1010,6 +1010,8 @@ structure RespSt where
   retry : Nat := 100
   sse : SseSt := {}
   ssePend : Bytes := []             -- EventSource.raw (is .body) : bytes not yet split into lines
+  afterChunk : Bool := false        -- the last thing parsed was the end of a non-empty chunk (parseBody is at its
+                                    -- `if self.closed and not self.msg: break` test)
 deriving Repr, DecidableEq
 
 def RespSt.isEv (s : RespSt) : Bool := s.evented == some true
@@ -1076,11 +1078,12 @@ def respHeadDone (s : RespSt) (h : Hdrs) : Except Exn RespSt :=
   let chunked := if bodiless then false else chunked0
   let length := if bodiless then some 0 else length0
   let ct := hget h (ascii "content-type")
+  -- each head starts without an event source (.evented None) whatever the previous response was
   let evented : Option Bool := match ct with
-    | some c => if c.isEmpty then s.evented else
+    | some c => if c.isEmpty then none else
         let c' := if c.contains 59 then (match rpartition1 59 c with | some p => p.1 | none => c) else c
         some (isInfix (ascii "text/event-stream") (lower c'))
-    | none => s.evented
+    | none => none
   let newEs := match ct with
     | some c => !c.isEmpty && evented == some true
     | none => false
@@ -1096,7 +1099,7 @@ def respHeadDone (s : RespSt) (h : Hdrs) : Except Exn RespSt :=
   let s := { s with headers := h, chunked := chunked, length := length, evented := evented, persisted := persisted,
                     body := [], ssePend := if newEs then [] else s.ssePend,
                     sse := if newEs then {} else s.sse }
-  .ok { s with parms := if chunked then some [] else s.parms, phase := respBodyPhase chunked length }
+  .ok { s with parms := if chunked then some [] else s.parms, phase := respBodyPhase chunked length, afterChunk := false }
 
 def respOnLineE (s : RespSt) (line : Bytes) : Except Exn RespSt :=
   match s.phase with
@@ -1116,13 +1119,13 @@ def respOnLineE (s : RespSt) (line : Bytes) : Except Exn RespSt :=
     | .error e => .error e
     | .ok (n, parms) =>
       let s := if parms.isEmpty then s else { s with parms := some (parms.foldl (fun acc kv => pset acc kv.1 kv.2) (s.parms.getD [])) }
-      .ok (if n == 0 then { s with phase := .trailer [] } else { s with phase := .cdata n })
+      .ok (if n == 0 then { s with phase := .trailer [], afterChunk := false } else { s with phase := .cdata n, afterChunk := false })
   | .cend =>
     if line.isEmpty then
       if s.isEv then
         let s' := s.absorb s.body
-        if s'.sse.dead then .error .lineTooLong else .ok { s' with body := [], phase := .csize }
-      else .ok { s with phase := .csize }
+        if s'.sse.dead then .error .lineTooLong else .ok { s' with body := [], phase := .csize, afterChunk := true }
+      else .ok { s with phase := .csize, afterChunk := true }
     else .error .badChunkEnd
   | .trailer acc =>
     match leaderLine acc line with
@@ -1234,6 +1237,24 @@ def respClose (s : RespSt) (b : Bytes) : RespSt :=
 def respFinal (st : RespSt × Bytes) (closed : Bool) : RespSt × Bytes :=
   let s := st.1.settle
   (if closed then respClose s st.2 else s, st.2)
+
+/-- the owner signals the close BEFORE it parses the last read (hio's Client parses first; other owners and the tree's
+tests may not): the only place where the order shows is parseBody's test after a non-empty chunk — when the message was
+already in progress, the last read ends exactly after a chunk and nothing is buffered, the body ends there as complete
+instead of as a premature closure.  (A message that STARTS in that parse clears .closed.) -/
+def respFinalCloseFirst (st1 : RespSt × Bytes) (frag : Bytes) : RespSt × Bytes :=
+  let st2 := respReader.feed st1 frag
+  let s := st2.1.settle
+  let inProgress := !(st1.1.phase == .status true && st1.2.isEmpty)
+  if inProgress && !frag.isEmpty && s.phase == .csize && st2.2.isEmpty && s.afterChunk && s.done.length == st1.1.done.length
+  then (s.finish, st2.2)
+  else (respClose s st2.2, st2.2)
+
+def respRunCloseFirst (head : Bool) (frags : List Bytes) : RespSt × Bytes :=
+  let init : RespSt × Bytes := (({ head := head } : RespSt), [])
+  match frags.reverse with
+  | [] => respFinal init true
+  | last :: revInit => respFinalCloseFirst (revInit.reverse.foldl respReader.feed init) last
 
 /-- Client.service over a sequence of reads -/
 def respRun (head : Bool) (frags : List Bytes) (closed : Bool) : RespSt × Bytes :=
